@@ -231,6 +231,56 @@ func c11Query(r *engine.Run, t *c11Tree, q rtree.Box, allK bool) {
 		if m >= 2 {
 			r.Nontrivial(fmt.Sprintf("%s/%d/%v/%s", t.family, len(t.boxes), q, op))
 		}
+		// re-entrancy: at visit k the callback itself searches the same tree (Nearest, a RangeSearch
+		// and a PrioritySearch that stops after two visits) and then continues. The outer visit
+		// sequence must be what it is without the nested searches, and the nested answers must be
+		// the ones an un-nested search gives.
+		for ki, k := range ks {
+			if ki > 3 && ki < len(ks)-1 {
+				continue
+			}
+			var outer []int
+			var nestedBad string
+			wantNearest, wantFound := t.tree.Nearest(q)
+			var wantRange []int
+			_ = t.tree.RangeSearch(q, func(id int) error { wantRange = append(wantRange, id); return nil })
+			cb := func(id int) error {
+				outer = append(outer, id)
+				if len(outer) == k+1 {
+					if n, f := t.tree.Nearest(q); n != wantNearest || f != wantFound {
+						nestedBad = fmt.Sprint("nested Nearest ", n, f)
+					}
+					var got []int
+					if err := t.tree.RangeSearch(q, func(id int) error { got = append(got, id); return nil }); err != nil || fmt.Sprint(got) != fmt.Sprint(wantRange) {
+						nestedBad = fmt.Sprint("nested RangeSearch ", got, err)
+					}
+					cnt := 0
+					var first2 []int
+					if err := t.tree.PrioritySearch(q, func(id int) error {
+						first2 = append(first2, id)
+						if cnt++; cnt == 2 {
+							return rtree.Stop
+						}
+						return nil
+					}); err != nil || (len(visits) >= 2 && op == "priority" && (len(first2) != 2 || first2[0] != visits[0] || first2[1] != visits[1])) {
+						nestedBad = fmt.Sprint("nested PrioritySearch ", first2, err)
+					}
+				}
+				return nil
+			}
+			var err error
+			if op == "range" {
+				err = t.tree.RangeSearch(q, cb)
+			} else {
+				err = t.tree.PrioritySearch(q, cb)
+			}
+			r.Transitions.Add(4)
+			r.Evaluations.Add(1)
+			c := t.mk(q, op, k, 7)
+			if err != nil || nestedBad != "" || fmt.Sprint(outer) != fmt.Sprint(visits) {
+				r.Violation("C11/"+op+".reentrantCallback", "search", c, fmt.Sprintf("outer visits %v (without nesting %v) %v %s", outer, visits, err, nestedBad))
+			}
+		}
 		for ki, k := range ks {
 			for kind := 0; kind < 7; kind++ {
 				if kind >= 4 && ki > 1 && ki < len(ks)-1 {
@@ -503,7 +553,7 @@ func c11Queries(boxes []rtree.Box, perItem int) []rtree.Box {
 }
 
 func c11Main(r *engine.Run) {
-	r.Rule = "trees = every multiset of ≤k lattice boxes (corners in {0..3}², incl. points/lines) and 18 layout families at every size 0..40 plus fan-out boundary sizes; queries = lattice boxes over the extent, enclosing, far, each item's own box and edge/corner-touching boxes; callback scripts = continue^j·X for every j (sampled positions for visit lists > 12 on big trees) and X ∈ {Stop, wrapped Stop, error, wrapped error, errors.Join(error, Stop), two-%w wrapper, doubly wrapped Stop}. states = trees, transitions = searches. non-trivial = (tree, query, op) with ≥ 2 visits (so a stop precedes the last match)"
+	r.Rule = "trees = every multiset of ≤k lattice boxes (corners in {0..3}², incl. points/lines) and 18 layout families at every size 0..40 plus fan-out boundary sizes; queries = lattice boxes over the extent, enclosing, far, each item's own box and edge/corner-touching boxes; callback scripts = continue^j·X for every j (sampled positions for visit lists > 12 on big trees) and X ∈ {Stop, wrapped Stop, error, wrapped error, errors.Join(error, Stop), two-%w wrapper, doubly wrapped Stop}, plus a re-entrant callback that searches the same tree at visit j (first four and last positions). states = trees, transitions = searches. non-trivial = (tree, query, op) with ≥ 2 visits (so a stop precedes the last match)"
 	lat := c11LatticeBoxes(4)
 	// (i) all multisets of ≤ k lattice boxes; queries = all lattice boxes
 	k := 2
